@@ -147,6 +147,21 @@ class KindEngine:
         batch = tuple(kr[:-2]) if len(kl) <= 2 else tuple(kl[:-2])
         return batch + tuple(kl[-2:-1]) + tuple(kr[-1:])
 
+    def _dot(self, t: T, kl: Kind, kr: Kind) -> Kind:
+        """numpy dot: the last axis of the left operand is summed with the second-to-last axis of the right one and the
+        result is left[:-1] + right[:-2] + right[-1:] -- for a right operand of rank > 2 this is NOT the batched matrix
+        product (its leading axes come after the left operand's)."""
+        if kl is None or kr is None or not kl or not kr:
+            return None
+        if len(kr) <= 2:
+            return self._matmul(t, kl, kr)
+        self.checked_sites += 1
+        a, b = kl[-1], kr[-2]
+        if not self._compat(a, b):
+            self.bad(t, f"dot contracts an axis of kind {a} with an axis of kind {b} (operands {kl} and {kr})")
+            return None
+        return tuple(kl[:-1]) + tuple(kr[:-2]) + tuple(kr[-1:])
+
     @staticmethod
     def _compat(a: str, b: str) -> bool:
         return a == b
@@ -199,13 +214,15 @@ class KindEngine:
             if meth in ("conj", "copy", "astype"):
                 return self.k(recv)
             if meth == "dot" and len(pos) == 1:
-                return self._matmul(t, self.k(recv), self.k(pos[0]))
+                return self._dot(t, self.k(recv), self.k(pos[0]))
             if meth == "reshape":
                 return self._reshape(t, self.k(recv), pos)
         if fn == "einsum" and pos and pos[0].op == "const" and isinstance(pos[0].args[0], str):
             return self._einsum(t, pos[0].args[0], pos[1:])
-        if fn in ("matmul", "dot") and len(pos) == 2:
+        if fn == "matmul" and len(pos) == 2:
             return self._matmul(t, self.k(pos[0]), self.k(pos[1]))
+        if fn == "dot" and len(pos) == 2:
+            return self._dot(t, self.k(pos[0]), self.k(pos[1]))
         if fn == "tensordot" and len(pos) >= 2:
             ka, kb = self.k(pos[0]), self.k(pos[1])
             ax = kws.get("axes", pos[2] if len(pos) > 2 else None)
